@@ -15,7 +15,7 @@ CHECKS = {
     },
     "C07": {
         "text": "Kernel-checked theorems about syscall traces: an executable checker `discipline` (every pwrite to a segment file is fsynced before the next ACK; a written file whose directory entry was not yet followed by a directory fsync gets one before the ACK; unlink is followed by a directory fsync before the ACK; segment files are created O_CREAT|O_EXCL and fallocated (mode 0, offset 0) to the requested size before any write; wal-meta.db appears only by rename of the written, synced and closed .tmp file, followed by a directory fsync) is proved sound for ALL traces against a durable-disk semantics (C07_discipline_sound: at every ACK every write to a live segment file is in synced content of an existing file with a durable directory entry, deletions are durable, the meta db is complete/synced/durably named; C07_meta_appears_complete), and the fs-layer model (Create/OpenWriter/File.Sync with first-Sync directory fsync/Delete/safeInitBoltDB/CommitState) is proved to generate only disciplined traces for callers that sync before acknowledging (C07_model_traces_ok). Tie: the extracted, proved checker is evaluated on the syscall traces of the PRODUCTION fs.FS + metadb.BoltMetaDB observed under strace for WAL workloads (fst lines), and the fs-layer model's predicted event sequence is compared with the observed one for direct fs-layer call sequences (fso lines). Independent Go-side oracles: a re-implementation of the discipline (witness signatures missing-dir-fsync, missing-file-fsync, delete-without-dir-fsync, non-exclusive-create, bad-fallocate, meta-tmp-not-synced, meta-not-renamed, ...), read-back of new segment files (requested size, zero-filled), exclusive-create probe, log read-back after reopen.",
-        "note": "PARTIAL by nature: the theorems are about syscall patterns. That the kernel/file system makes fsynced data and fsynced directory entries durable, that fallocate zero-fills and O_EXCL excludes are ASSUMPTIONS (they are the disk semantics of Fs/DisciplineFacts.v and the README's assumptions), as is the completeness and ordering of the strace log. bbolt's page writes are checked only as 'every page write to wal-meta.db is followed by fdatasync before the ACK'. Workloads are sequential (one API call at a time; the background rotation runs concurrently and is covered).",
+        "note": "PARTIAL by nature: the theorems are about syscall patterns. That the kernel/file system makes fsynced data and fsynced directory entries durable, that fallocate zero-fills and O_EXCL excludes are ASSUMPTIONS (they are the disk semantics of Fs/DisciplineFacts.v and the README's assumptions), as is the completeness and ordering of the strace log. bbolt's page writes are checked only as 'every page write to wal-meta.db is followed by fdatasync before the ACK of every call except StoreLogs' (the background rotation's metadata commit legitimately overlaps the return of the StoreLogs that sealed the segment; the next mutating call awaits it). Workloads are sequential (one API call at a time; the background rotation runs concurrently and is covered).",
         "technique": "Rocq proof (trace induction, simulation between checker state and disk semantics) + syscall-trace correspondence under strace",
         "ref": "DESIGN.md 5 C07",
     },
